@@ -298,7 +298,8 @@ def read_env(src, expr, skip_envs=(), tolerance=0, mode=MODE_NON_MATH):
     if error and tolerance == 0:
         unclosed_env_handler(src, expr, src.peek((0, 6)))
     elif not error:
-        src.forward(5)
+        # consume the `\end{name}`, including any whitespace before the brace
+        read_command(src, 1, 0, skip=1, tolerance=tolerance, mode=mode)
     expr.append(*contents)
     return expr
 
